@@ -232,6 +232,19 @@ Theorem C14_ed_neg_agrees : forall (F : Type) (K : fops F), flaws K ->
 Proof. exact @ed_neg_agrees. Qed.
 Print Assumptions C14_ed_neg_agrees.
 
+Theorem C14_zp_ed_add_program_is_model : forall (p : Z) (p_prime : prime p) (a d s : Fp p),
+  fadd (FpOps p p_prime) (f1 (FpOps p p_prime)) (f1 (FpOps p p_prime)) <> f0 (FpOps p p_prime) ->
+  (forall r : Fp p, fmul (FpOps p p_prime) r r <> d) -> fmul (FpOps p p_prime) s s = a ->
+  forall P Q : Fp p * Fp p * Fp p * Fp p,
+  e_valid (FpOps p p_prime) a d P -> e_valid (FpOps p p_prime) a d Q ->
+  let '(X1, Y1, T1, Z1) := h4 (fp_val p) P in
+  let '(X2, Y2, T2, Z2) := h4 (fp_val p) Q in
+  e_to_affine (Zp p) (E_Add (Zp p) (fp_val p a) (fp_val p d) X1 Y1 T1 Z1 X2 Y2 T2 Z2) =
+  eaff_add (Zp p) (fp_val p a) (fp_val p d)
+           (e_to_affine (Zp p) (X1, Y1, T1, Z1)) (e_to_affine (Zp p) (X2, Y2, T2, Z2)).
+Proof. exact zp_ed_add_program_is_model. Qed.
+Print Assumptions C14_zp_ed_add_program_is_model.
+
 (* ---- extension towers --------------------------------------------------------------------------------- *)
 
 Theorem C14_quad_mul_schoolbook : forall (F : Type) (K : fops F), flaws K ->
